@@ -22,6 +22,7 @@ import gen_daqmx
 import corr_lazy as cl
 from corr_reader import compare_state
 from framework import Violation
+from props import lazy_common
 from leanio import hx
 
 LEVEL = "proof"
@@ -201,6 +202,7 @@ def writer_file(rnd, nptdms, tmp):
     return open(p, "rb").read(), open(p + "_index", "rb").read()
 
 
+
 def run(ctx):
     nptdms = ctx.nptdms()
     model = ctx.get_model() if ctx.build_ok else None
@@ -219,7 +221,7 @@ def run(ctx):
                 stats["writer_index"] += 1
                 segs = None
             else:
-                segs = gen_daqmx.draw(ctx.rnd) if kind == 6 else gen_files.FileGen(ctx.rnd).draw()
+                segs = gen_daqmx.draw(ctx.rnd) if kind == 6 else lazy_common.repeated_metadata(ctx.rnd) if (kind == 5 and i % 16 == 5) else gen_files.FileGen(ctx.rnd).draw()
                 e = model.ask(gen_files.to_line(segs))
                 if not e.get("ok") or not e.get("wf"):
                     continue
@@ -250,7 +252,7 @@ def run(ctx):
         shutil.rmtree(tmp, ignore_errors=True)
     return dict(violations=violations[:5], disagreements=disagreements[:20],
                 coverage=dict(evaluations=stats["comparisons"] + stats["model"] + stats["index_only"] + stats["truncated"], distinct_nontrivial=len(nontrivial),
-                              rule="generated files (standard; every eighth DAQmx; every eighth written by TdmsWriter with index_file=True over 1-2 sessions) on disk in a "
+                              rule="generated files (standard; every eighth DAQmx; every sixteenth a file repeating byte-identical `matches previous` metadata blocks around a changed raw data index; every eighth written by TdmsWriter with index_file=True over 1-2 sessions) on disk in a "
                                    "temporary directory, with no index / the Lean-spec index / the TdmsWriter index; read, open (+ lazy full reads), read_metadata, index "
                                    "alone; every fourth file additionally with the data file cut short at two offsets under the full index (same with/without-index oracle, tdms_version excluded); non-trivial = distinct "
                                    "files holding raw data",
